@@ -96,10 +96,9 @@ void tab_rehash_contract(JanetTable *t, int32_t size) {
     __CPROVER_assert((t)->data[i_].key.u64 == (snap)[i_].key.u64 && (t)->data[i_].value.u64 == (snap)[i_].value.u64, msg)
 
 /* ================= janet_table_put =================
- * One call site per (count, deleted) pair allowed by the load clause: both are constants there, so is the decision to
- * rehash and the new capacity janet_tablen(2*count+2), and with them every loop bound (DESIGN C04: "one job per capacity
- * so loop bounds are constants"). Together the cases cover every well-formed table of capacity TAB_CAP. */
-static void tab_put_case(int32_t count, int32_t deleted) {
+ * rehashing != 0: count and deleted are constants, hence also the new capacity janet_tablen(2*count+2) and every loop
+ * bound over the new block (DESIGN C04: "one job per capacity so loop bounds are constants"). */
+static void tab_put_case(int32_t count, int32_t deleted, int rehashing) {
   JanetTable *dang = tab_dangling();
   JanetTable *t = tab_any_table(TAB_CAP, dang);
   t->count = count;
@@ -117,6 +116,8 @@ static void tab_put_case(int32_t count, int32_t deleted) {
   __CPROVER_assume(snap != TAB_NULL);
   for (int i = 0; i < TAB_CAP; i++) snap[i] = t->data[i];
   g_rh_calls = 0;
+  int atlimit = 2 * ((int64_t) count + deleted + 1) > TAB_CAP;
+  __CPROVER_assume(rehashing == (atlimit && k != 0 && !present && !janet_checktype(value, JANET_NIL)));
 
   janet_table_put(t, key, value);
 
@@ -138,20 +139,36 @@ static void tab_put_case(int32_t count, int32_t deleted) {
     if (present) __CPROVER_assert(t->data == odata && t->capacity == TAB_CAP && t->deleted == od && g_rh_calls == 0, "C04 put: overwriting a present key does not rehash");
   }
   REACH("put returns");
-  if (k != 0 && !isnil && !present && g_rh_calls == 0) REACH("put inserts a new key without rehash");
-  if (k != 0 && !isnil && !present && g_rh_calls != 0) REACH("put inserts a new key after rehash");
-  /* (a put never lands on a tombstone: under the load clause an EMPTY bucket ends every probe first, so the
-   *  `--t->deleted` of janet_table_put is unreachable from well-formed tables) */
-  if (k != 0 && !isnil && present) REACH("put overwrites a present key");
-  if (k != 0 && isnil && present) REACH("put with nil removes a present key");
-  if (k == 0) REACH("put ignores a nil or NaN key");
+  if (rehashing) {
+    REACH("put inserts a new key after rehash");
+    __CPROVER_assert(g_rh_calls == 1, "C04 put: a new key at the load limit rehashes once");
+  } else {
+#if TAB_CAP >= 2
+    if (k != 0 && !isnil && !present) REACH("put inserts a new key without rehash");
+    if (k != 0 && !isnil && present) REACH("put overwrites a present key");
+    if (k != 0 && isnil && present) REACH("put with nil removes a present key");
+#endif
+    if (k == 0) REACH("put ignores a nil or NaN key");
+    /* (a put never lands on a tombstone: under the load clause an EMPTY bucket ends every probe first, so the
+     *  `--t->deleted` of janet_table_put is unreachable from well-formed tables) */
+  }
+}
+/* Unit split (all cases together = every well-formed table and every argument):
+ *   TAB_PUT_COUNT undefined : every call that does not rehash (the rehash replacement asserts that it is not reached):
+ *                             key present, nil value, foreign key, or count + deleted < capacity/2
+ *   TAB_PUT_COUNT = c       : a new key with a non-nil value put into a table with count == c at the load limit
+ *                             (count + deleted == capacity/2; == 0 for capacity 1) - the calls that rehash */
+void tab_rehash_unreachable(JanetTable *t, int32_t size) {
+  __CPROVER_assert(0, "C04 put: rehash happens only for a new key at the load limit");
+  __CPROVER_assume(0);
 }
 void h_table_put(void) {
   tab_init();
-  int32_t c0 = nd_i32(), d0 = nd_i32();
-  for (int32_t c = 0; 2 * c <= TAB_CAP; c++)
-    for (int32_t d = 0; 2 * (c + d) <= TAB_CAP; d++)
-      if (c0 == c && d0 == d) tab_put_case(c, d);
+#ifdef TAB_PUT_COUNT
+  tab_put_case(TAB_PUT_COUNT, TAB_CAP / 2 - TAB_PUT_COUNT, 1);
+#else
+  tab_put_case(nd_i32(), nd_i32(), 0);
+#endif
 }
 
 /* ================= janet_table_remove ================= */
